@@ -134,3 +134,7 @@ func memoryAuthCall(stack *Stack) (uint64, bool) {
 	}
 	return y, false
 }
+
+func memoryAuth(stack *Stack) (uint64, bool) {
+	return calcMemSize64(stack.Back(1), stack.Back(2))
+}
